@@ -513,27 +513,52 @@ func (m *mergeCtx) ps5MergeOrder() {
 	m.rep.Check(activeClosed, "PS5", "marker-after-output-close:"+core.FuncKey(m.merge), "the last output file is closed (flushed) before the marker is created", m.p.InstrPos(M), "marker creation is not dominated by closing the scratch database's active file", true)
 	m.rep.Check(olderClosed, "PS5", "marker-after-rotated-output-close:"+core.FuncKey(m.merge), "every rotated output file is closed (flushed, truncated under mmap) before the marker is created", m.p.InstrPos(M), "marker creation is not dominated by a loop closing the scratch database's rotated files", true)
 
-	// (f) leftovers removed before the directory is reused
+	// (f) leftovers removed before the directory is reused - in Merge or in a helper only Merge calls
 	var mk ssa.Instruction
+	mkFn := m.merge
+	scope := []*ssa.Function{m.merge}
 	for _, b := range m.merge.Blocks {
 		for _, in := range b.Instrs {
-			if calleeIs(in, "os.MkdirAll") {
-				mk = in
+			if ci, ok := in.(ssa.CallInstruction); ok {
+				if c := ci.Common().StaticCallee(); c != nil && inRootPkg(c) && c.Blocks != nil && len(libCallSites(m.p, c)) == 1 {
+					scope = append(scope, c)
+				}
+			}
+		}
+	}
+	for _, fn := range scope {
+		for _, b := range fn.Blocks {
+			for _, in := range b.Instrs {
+				if calleeIs(in, "os.MkdirAll") {
+					mk, mkFn = in, fn
+				}
 			}
 		}
 	}
 	cleaned := false
 	if mk != nil {
 		dir := mk.(ssa.CallInstruction).Common().Args[0]
-		for _, b := range m.merge.Blocks {
+		for _, b := range mkFn.Blocks {
 			for _, in := range b.Instrs {
 				if calleeIs(in, "os.RemoveAll") && sameOrigin(in.(ssa.CallInstruction).Common().Args[0], dir) {
 					if dominatesInstr(in, mk) {
 						cleaned = true
-					} else if len(b.Preds) == 1 && b.Preds[0].Dominates(mk.Block()) {
-						// under the os.Stat(dir) == nil probe
-						for _, pin := range b.Preds[0].Instrs {
-							if calleeIs(pin, "os.Stat") && sameOrigin(pin.(ssa.CallInstruction).Common().Args[0], dir) {
+					} else {
+						// under the os.Stat(dir) == nil probe, whose test block dominates the (re)creation
+						for _, gb := range mkFn.Blocks {
+							iff, ok := gb.Instrs[len(gb.Instrs)-1].(*ssa.If)
+							if !ok || !gb.Dominates(mk.Block()) {
+								continue
+							}
+							bo, ok := iff.Cond.(*ssa.BinOp)
+							if !ok || !core.IsNilConst(bo.Y) {
+								continue
+							}
+							c, idx := extractOf(bo.X)
+							if c == nil || idx != 1 || !core.StaticCalleeIs(c.Common(), "os.Stat") || !sameOrigin(c.Common().Args[0], dir) {
+								continue
+							}
+							if edgeDominates(iff, bo.Op == token.EQL, b) {
 								cleaned = true
 							}
 						}
@@ -542,6 +567,44 @@ func (m *mergeCtx) ps5MergeOrder() {
 			}
 		}
 	}
+	// (i) Merge removes nothing but the leftovers of an earlier merge: every removal primitive it (or its private
+	// helpers) calls lies before the directory is (re)created - in particular the hint file it just wrote is never
+	// removed (adoption reads "no hint in the merge directory" as "already moved" and would use a stale one)
+	// (j) the leftover cleanup removes the finished marker BEFORE the directory, so that a crash in the middle of the
+	// removal leaves an unfinished merge (ignored by Open), never a marker-valid partial one
+	var lateRemovals []string
+	markerFirst := false
+	for _, fn := range scope {
+		for _, b := range fn.Blocks {
+			for _, in := range b.Instrs {
+				if !calleeIs(in, "os.Remove", "os.RemoveAll") {
+					continue
+				}
+				if mk == nil || fn != mkFn || !(dominatesInstr(in, mk) || reachesAvoiding(in, mk, nil)) || reachesAvoiding(mk, in, nil) {
+					lateRemovals = append(lateRemovals, core.CalleeName(in.(ssa.CallInstruction).Common())+" at "+m.p.InstrPos(in))
+					continue
+				}
+				if calleeIs(in, "os.Remove") {
+					// the marker: a GetFileName(dir, _, MergeFinishedFileSuffix) path, removed before the RemoveAll
+					for _, o := range core.Origins(in.(ssa.CallInstruction).Common().Args[0]) {
+						if gc, ok := o.(*ssa.Call); ok && gc.Common().StaticCallee() == m.getName {
+							if sfx, _ := strConst(gc.Common().Args[2]); sfx == m.suffix("MergeFinishedFileSuffix") {
+								for _, b2 := range fn.Blocks {
+									for _, in2 := range b2.Instrs {
+										if calleeIs(in2, "os.RemoveAll") && reachesAvoiding(in, in2, nil) && !reachesAvoiding(in2, in, nil) {
+											markerFirst = true
+										}
+									}
+								}
+							}
+						}
+					}
+				}
+			}
+		}
+	}
+	m.rep.Check(len(lateRemovals) == 0, "PS5", "merge-removes-only-leftovers:"+core.FuncKey(m.merge), "Merge removes files only while cleaning up the leftovers of an earlier merge", m.p.Pos(m.merge.Pos()), "removal after the scratch directory was created: "+strings.Join(lateRemovals, ", ")+" (a hint or output file removed by Merge makes adoption fall back on stale files)", true)
+	m.rep.Check(markerFirst, "PS5", "leftover-marker-removed-first:"+core.FuncKey(m.merge), "the finished marker of an earlier merge is removed before its directory", m.p.Pos(m.merge.Pos()), "the leftover directory is removed without first removing its finished marker: a crash in the middle of the removal leaves a marker-valid partial merge that the next Open adopts (data loss)", true)
 	m.rep.Check(mk != nil && cleaned, "PS5", "scratch-dir-cleaned:"+core.FuncKey(m.merge), "an existing merge directory (unfinished earlier merge) is removed before it is reused", m.p.Pos(m.merge.Pos()), "the scratch directory is (re)created without removing leftovers: files are opened in append mode, so the new output is appended to the partial files of a crashed merge and stale records are resurrected at adoption", true)
 }
 
